@@ -90,9 +90,9 @@ func genCors(r *Rng) Sx {
 		}
 		fn = L(Strs(acc))
 	}
-	methods := r.Subset(corsMethodPool, 40)
-	if len(methods) == 0 {
-		methods = []string{"GET"}
+	methods := []string{}
+	if r.Pct(60) {
+		methods = r.Subset(corsMethodPool, 40)
 	}
 	allowedHeaders := r.Subset(corsHeaderPool, 40)
 	if r.Pct(10) {
@@ -103,27 +103,42 @@ func genCors(r *Rng) Sx {
 	maxage := []int{0, 0, -1, 10, 3600}[r.Intn(5)]
 	cfg := L(Strs(expose), Strs(allowedHeaders), Strs(domains), fn, Strs(methods), maxage, B(r.Pct(40)))
 
-	q := &Req{Method: r.Pick([]string{"GET", "POST", "OPTIONS", "OPTIONS", "OPTIONS", "DELETE"}), Path: "/r"}
-	if origin != "" || r.Pct(30) {
-		q.Set("Origin", origin)
+	router := 0
+	if r.Pct(30) {
+		router = 1
 	}
-	if r.Pct(60) {
-		q.Set("Access-Control-Request-Method", r.Pick(corsMethodPool))
-	}
-	if r.Pct(50) {
-		hs := []string{}
-		k := 1 + r.Intn(3)
-		for i := 0; i < k; i++ {
-			h := r.Pick(append([]string{"X-Other", ""}, corsHeaderPool...))
-			if r.Pct(50) {
-				h = flipCase(r, h)
-			}
-			h = strings.Repeat(" ", r.Intn(2)) + h + strings.Repeat(" ", r.Intn(2))
-			hs = append(hs, h)
+	t, routes := genSimpleTable(r, router)
+	nreq := []int{1, 1, 2, 3}[r.Intn(4)]
+	reqs := Ls{}
+	for k := 0; k < nreq; k++ {
+		q := genSimpleRequest(r, routes)
+		q.Method = r.Pick([]string{"GET", "POST", "OPTIONS", "OPTIONS", "OPTIONS", "DELETE"})
+		o := origin
+		if k > 0 && r.Pct(30) {
+			o = nearOrigin(r, domains)
 		}
-		q.Set("Access-Control-Request-Headers", strings.Join(hs, ","))
+		if o != "" || r.Pct(30) {
+			q.Set("Origin", o)
+		}
+		if r.Pct(60) {
+			q.Set("Access-Control-Request-Method", r.Pick(corsMethodPool))
+		}
+		if r.Pct(50) {
+			hs := []string{}
+			n := 1 + r.Intn(3)
+			for i := 0; i < n; i++ {
+				h := r.Pick(append([]string{"X-Other", ""}, corsHeaderPool...))
+				if r.Pct(50) {
+					h = flipCase(r, h)
+				}
+				h = strings.Repeat(" ", r.Intn(2)) + h + strings.Repeat(" ", r.Intn(2))
+				hs = append(hs, h)
+			}
+			q.Set("Access-Control-Request-Headers", strings.Join(hs, ","))
+		}
+		reqs = append(reqs, q.Sx())
 	}
-	return L(cfg, L(), q.Sx())
+	return L(cfg, t.Sx(), reqs)
 }
 
 func corsFromSx(cfg Sx) restful.CrossOriginResourceSharing {
@@ -146,50 +161,40 @@ func corsFromSx(cfg Sx) restful.CrossOriginResourceSharing {
 }
 
 func runCors(raw Sx) (Sx, Sx) {
-	cfgSx, computed, reqSx := sxNth(raw, 0), sxNth(raw, 1), sxNth(raw, 2)
-	q := sxReq(reqSx)
-	build := func(withFilter bool) (*restful.Container, *int) {
-		invoked := new(int)
-		c := restful.NewContainer()
-		if withFilter {
-			cors := corsFromSx(cfgSx)
-			cors.Container = c
-			c.Filter(cors.Filter)
-		}
-		ws := new(restful.WebService)
-		ws.Path("/")
-		for _, m := range []string{"GET", "POST", "PUT", "DELETE", "PATCH", "OPTIONS"} {
-			ws.Route(ws.Method(m).Path("/r").To(func(rq *restful.Request, rs *restful.Response) {
-				*invoked++
-				rs.AddHeader("X-Handler", "1")
-				rs.Write([]byte("ok"))
-			}))
-		}
-		c.Add(ws)
-		return c, invoked
-	}
-	c1, inv1 := build(true)
-	c2, inv2 := build(false)
-	rec1, rec2 := httptest.NewRecorder(), httptest.NewRecorder()
-	c1.Dispatch(rec1, q.HTTP())
-	c2.Dispatch(rec2, q.HTTP())
-	all := func(string) bool { return true }
-	twin := rec1.Code == rec2.Code && rec1.Body.String() == rec2.Body.String() && *inv1 == *inv2 &&
-		SxString(headerSx(rec1.Header(), all)) == SxString(headerSx(rec2.Header(), all))
-	acl := headerSx(rec1.Header(), func(k string) bool { return strings.HasPrefix(k, "Access-Control-") })
-
+	cfgSx, tSx, reqsSx := sxNth(raw, 0), sxNth(raw, 1), sxList(sxNth(raw, 2))
+	t := tableFromSx(tSx)
+	pr1, pr2 := &probe{}, &probe{}
+	c1, kept, _ := buildContainer(t, pr1)
+	c2, _, _ := buildContainer(t, pr2)
+	cors := corsFromSx(cfgSx)
+	cors.Container = c1
+	c1.Filter(cors.Filter) // one filter value serves the whole sequence
 	o := NewOracles()
-	o.Lower(q.Get("Origin"))
 	for _, d := range sxStrs(sxNth(cfgSx, 2)) {
 		o.Lower(d)
 	}
 	for _, h := range sxStrs(sxNth(cfgSx, 1)) {
 		o.Lower(h)
 	}
-	for _, h := range strings.Split(q.Get("Access-Control-Request-Headers"), ",") {
-		o.Lower(strings.Trim(h, " "))
+	all := func(string) bool { return true }
+	obs := Ls{}
+	for _, rs := range reqsSx {
+		q := sxReq(rs)
+		*pr1, *pr2 = probe{}, probe{}
+		rec1, rec2 := httptest.NewRecorder(), httptest.NewRecorder()
+		c1.Dispatch(rec1, q.HTTP())
+		c2.Dispatch(rec2, q.HTTP())
+		twin := rec1.Code == rec2.Code && rec1.Body.String() == rec2.Body.String() && len(pr1.invoked) == len(pr2.invoked) &&
+			SxString(headerSx(rec1.Header(), all)) == SxString(headerSx(rec2.Header(), all))
+		acl := headerSx(rec1.Header(), func(k string) bool { return strings.HasPrefix(k, "Access-Control-") })
+		obs = append(obs, L(acl, B(len(pr1.invoked) > 0), B(twin)))
+		o.Lower(q.Get("Origin"))
+		for _, h := range strings.Split(q.Get("Access-Control-Request-Headers"), ",") {
+			o.Lower(strings.Trim(h, " "))
+		}
+		tabulateRouting(o, kept, q.Path)
 	}
-	return L(o.Sx(), cfgSx, computed, reqSx), L(acl, B(*inv1 > 0), B(twin))
+	return L(o.Sx(), cfgSx, kept.Sx(), Ls(reqsSx)), obs
 }
 
 func init() { domains["cors"] = domain{gen: genCors, run: runCors} }
